@@ -309,6 +309,13 @@ def c11(case, run):
     last = run[-1]
     if last["pending_packages"] or last["outstanding_calls"]:
         return [("C11-not-quiescent", "the script did not reach quiescence (generator)")]
+    for si, d in enumerate(run):
+        r = d.get("res")
+        if isinstance(r, dict) and "book" in r and r.get("registered") and r["book"] != "CLOSED":
+            if not r["registered_has_this_book"] or not r["handed_is_registered"]:
+                bad.append(("C11-adopted-market-orphaned", "step %d: a market book was processed but the market registered with the framework - the one holding the orders, incl. those adopted from the order stream - %s; the strategies were handed %s" % (
+                    si, "received it" if r["registered_has_this_book"] else "did not receive it (its market_book is unchanged)", "that market" if r["handed_is_registered"] else "a different Market object with an empty blotter")))
+                break
     bybet = {b["id"]: b for b in last["exchange"]}
     seen_bets = Counter(o["bet"] for o in last["orders"] if o["bet"] is not None)
     for b, n in seen_bets.items():
